@@ -4,7 +4,8 @@
               target_sympy.py (noise type names, list length, SUPPORTED_NOISE_MODELS, the CNOT->CX renaming and
               which name the noise look-up uses, the rate expression np*(4**k-1)/4**k, backend_info) — fail closed
   prove       coq/props/C19.v (placement by induction over the gate list; Pauli channel; k-qubit depolarising
-              rate conversion for every k; zero noise = noiseless; validation iff; as-is look-up rule refuted)
+              rate conversion for every k; zero noise = noiseless; validation iff; the look-up key is the gate's own
+              name; the pre-fix look-up rule kept as a refuted regression witness)
   correspond  on the real code and on the Coq model (vm_compute):
                 validation  sequences of add_quantum_error calls (well-formed and malformed), accept/reject flags
                             and the stored dictionary
@@ -49,6 +50,54 @@ SIG_RENAME = "C19/translate_c_to_cirq/multi-controlled-CNOT-noise-lookup-after-r
 SIG_RATE = "C19/add_quantum_error/depol-rate-above-one-accepted"
 ZETA = cmath.exp(1j * math.pi / 16)
 TOL = 1e-9
+
+
+# last-known-good constants (what translator/noise_tables.py extracts from the tree the check was built against);
+# used ONLY when the translator no longer recognises the source, so that the model correspondence keeps running
+# (the translator failure itself is reported; the evidence says which tables were used)
+FALLBACK_T = {
+    "supported": ["depol", "pauli"], "v_pauli": "pauli", "v_pauli_len": 3, "v_depol": "depol",
+    "t_pauli": "pauli", "t_depol": "depol", "rename_rule": ("CNOT", "CX", 1), "lookup_renamed": False,
+    "needs_control": ["CH", "CNOT", "CPHASE", "CRX", "CRY", "CRZ", "CSWAP", "CX", "CY", "CZ"],
+    "rate_src": "np * (4 ** depo_size - 1) / 4 ** depo_size",
+    "rate_Qc": "((np * ((Qcpow (Q2Qc (inject_Z (4))) depo_size) - (Q2Qc (inject_Z (1))))) / (Qcpow (Q2Qc (inject_Z (4))) depo_size))",
+    "rate_R": "((np * ((pow (IZR (4)) depo_size) - (IZR (1)))) / (pow (IZR (4)) depo_size))",
+    "cirq_noisy": True, "cirq_sv": True, "sympy_noisy": False, "sympy_sv": True}
+
+
+def safe_eval(ck, name, exprs, **kw):
+    """ck.coq_eval that never stops the check: on failure the model values are None (reported once per stream) and
+    the caller goes on with the implementation-only oracles."""
+    try:
+        return ck.coq_eval(name, PREAMBLE, exprs, **kw)
+    except Exception as e:
+        ck.violation("C19/model-eval/%s" % name, "the Coq model could not be evaluated for stream %s: %s" % (
+            name, str(e)[-600:]), {"kind": "model-eval", "stream": name, "error": str(e)[-3000:]}, found_input=False)
+        return [None] * len(exprs)
+
+
+def guard(ck, name, fn, *args):
+    """run one stream; a crash of the stream is reported and the other streams still run"""
+    import traceback
+    try:
+        fn(ck, *args)
+    except Exception:
+        tb = traceback.format_exc()
+        ck.violation("C19/harness/%s-crashed" % name, "stream %s could not complete: %s" % (name, tb.splitlines()[-1]),
+                     {"kind": "crash", "stream": name, "traceback": tb[-3000:]}, found_input=False)
+
+
+def expected_flags(calls):
+    """independent statement of 'well-formed specification' (the property's side of the validation clause):
+    type in {pauli, depol}; pauli <-> a list of exactly 3 entries, depol <-> a float; one channel of each type per gate"""
+    seen, out = {}, []
+    for g, nt, (kind, v) in calls:
+        ok = (nt == "pauli" and kind == "l" and len(v) == 3) or (nt == "depol" and kind == "f")
+        ok = ok and nt not in seen.get(g, set())
+        if ok:
+            seen.setdefault(g, set()).add(nt)
+        out.append(ok)
+    return out
 
 
 # ------------------------------------------------------------------------------------------ values
@@ -154,21 +203,29 @@ def rand_error(rng, kind, zero=False):
     return ("f", rng.choice(RATES))
 
 
-def rand_calls(rng, gate_names, zero=False, absent_p=0.15):
+def rand_calls(rng, gate_names, zero=False, absent_p=0.15, must=None):
     """well-formed calls: 1-3 gate names (mostly names that occur in the circuit), each with a Pauli error, a
     depolarising error, or both (either order)."""
     names = sorted(set(gate_names))
     pool = list(names)
     k = rng.randint(1, min(3, max(1, len(pool))))
     chosen = rng.sample(pool, min(k, len(pool))) if pool else []
+    if must is not None and must not in chosen and rng.random() < 0.7:
+        chosen[0:1] = [must]
     if rng.random() < absent_p or not chosen:
         chosen.append(rng.choice([n for n in LC.ALL_UNITARY if n not in names] or ["T"]))
     calls = []
     for g in chosen:
         r = rng.random()
-        kinds = ["pauli"] if r < 0.3 else ["depol"] if r < 0.6 else ["pauli", "depol"] if r < 0.8 else ["depol", "pauli"]
-        for kd in kinds:
-            calls.append((g, kd, rand_error(rng, kd, zero)))
+        kinds = ["pauli"] if r < 0.25 else ["depol"] if r < 0.5 else ["pauli", "depol"] if r < 0.75 else ["depol", "pauli"]
+        # a pair with exactly one all-zero channel (a filter on "zero noise" must not drop the other one)
+        zero_one = rng.randrange(2) if (len(kinds) == 2 and not zero and rng.random() < 0.4) else None
+        for k, kd in enumerate(kinds):
+            e = rand_error(rng, kd, zero or k == zero_one)
+            if zero_one is not None and k != zero_one:
+                while (e[0] == "f" and e[1] == 0) or (e[0] == "l" and not any(e[1])):
+                    e = rand_error(rng, kd)
+            calls.append((g, kd, e))
     return calls
 
 
@@ -177,12 +234,18 @@ def rand_circuit(rng, tier, n=None, max_gates=None):
     ng = rng.randint(1, max_gates or (6 if tier == "quick" else 8))
     gs = LC.rand_gate_list(rng, n, ng, LC.ALL_UNITARY, max_controls=2, var_p=0.0, edge_p=0.2, echo_p=0.15)
     # make multi-controlled gates and the CNOT/CX pair common enough
-    if n == 3 and rng.random() < 0.35:
+    if n == 3 and rng.random() < 0.6:
         qs = rng.sample(range(3), 3)
-        name = rng.choice(["CNOT", "CNOT", "CX", "CZ", "CRY", "CPHASE", "CH"])
+        name = rng.choice(["CNOT", "CNOT", "CNOT", "CX", "CZ", "CY", "CRY", "CRZ", "CRX", "CPHASE", "CH"])
         gs.insert(rng.randrange(len(gs) + 1), {"name": name, "target": [qs[0]], "control": qs[1:],
                                                 "k": LC.rand_k(rng) if name in LC.PARAM else None, "var": False})
     return gs
+
+
+def mc_name(gs):
+    """name of a gate with >= 2 controls in the circuit (noise is preferably attached to it), or None"""
+    l = [s["name"] for s in gs if s["control"] and len(s["control"]) > 1]
+    return l[0] if l else None
 
 
 def rand_malformed_calls(rng):
@@ -432,7 +495,7 @@ def witness_fails():
     st, toks = translate_impl(W_GATES, W_CALLS)
     if st != "ok":
         return None, "translate raised %s" % toks
-    has = any(t[0] == "D" and t[-1] == (0, 1, 2) for t in toks)
+    has = any(t[0] == "D" for t in toks)          # any depolarising channel at all (its qubits are the placement oracle's business)
     return (not has), toks
 
 
@@ -447,21 +510,29 @@ def run_validation_stream(ck, n_cases):
         calls = rand_malformed_calls(ck.rng) if ck.rng.random() < 0.7 else rand_calls(ck.rng, ["X", "CNOT", "H"])
         cases.append(calls)
         exprs.append("rv %s" % coq_calls(calls))
-    model = ck.coq_eval("validation", PREAMBLE, exprs, shard=200, jobs=3)
+    model = safe_eval(ck, "validation", exprs, shard=200, jobs=3)
     for calls, m in zip(cases, model):
         nm, flags, errs = build_nm(calls)
         impl = "".join("T" if f else "F" for f in flags) + " | " + show_nm_impl(nm)
+        rep = {"kind": "validation", "calls": jsonable_calls(calls)}
         ck.case("validation", json.dumps(jsonable_calls(calls)), nontrivial=(True in flags and False in flags),
                 sample={"calls": jsonable_calls(calls), "impl": impl, "model": m},
                 tags=["accepted" if f else "rejected:%s" % e for f, e in zip(flags, errs)])
-        if impl != m:
+        if m is not None and impl != m:
             ck.violation("C19/correspondence/add_quantum_error", "validation differs: impl=%s model=%s calls=%s" % (
-                impl, m, jsonable_calls(calls)), {"kind": "validation", "calls": jsonable_calls(calls), "impl": impl, "model": m},
-                found_input=False)
+                impl, m, jsonable_calls(calls)), dict(rep, impl=impl, model=m), found_input=False)
+        # ---- the property on the implementation alone
+        for k, (f, w) in enumerate(zip(flags, expected_flags(calls))):
+            if f and not w:
+                ck.violation("C19/add_quantum_error/malformed-accepted", "malformed specification accepted: call %d of %s" % (
+                    k, jsonable_calls(calls)), rep, found_input=True)
+            if w and not f:
+                ck.violation("C19/add_quantum_error/wellformed-rejected", "well-formed specification rejected: call %d of %s" % (
+                    k, jsonable_calls(calls)), rep, found_input=True)
         for e in errs:
             if e is not None and e != "ValueError":
                 ck.violation("C19/add_quantum_error/raises-%s" % e, "malformed specification raises %s instead of ValueError" % e,
-                             {"kind": "validation", "calls": jsonable_calls(calls)}, found_input=False)
+                             rep, found_input=False)
 
 
 def classify(gs, calls):
@@ -470,6 +541,14 @@ def classify(gs, calls):
     if any(s["control"] and len(s["control"]) > 1 for s in gs):
         tags.append("multi-controlled")
     tags += ["noise:" + nt for _, nt, _ in calls]
+    errs = errors_of_calls(calls)
+    if any(s["control"] and len(s["control"]) > 1 and s["name"] in errs for s in gs):
+        tags.append("noisy-multi-controlled")
+
+    def is_zero(e):
+        return (e[0] == "depol" and e[1] == 0) or (e[0] == "pauli" and not any(x for x in e[1] if x is not None))
+    if any(len(l) == 2 and is_zero(l[0]) != is_zero(l[1]) and any(s["name"] == g for s in gs) for g, l in errs.items()):
+        tags.append("mixed-zero-nonzero-pair")
     return tags
 
 
@@ -511,18 +590,22 @@ def run_placement_stream(ck, n_cases, renamed):
             calls = rand_calls(ck.rng, names)[:1] + rand_bad_rate_calls(ck.rng, names)
             ck.rng.shuffle(calls)
         else:
-            calls = rand_calls(ck.rng, names, zero=ck.rng.random() < 0.08)
+            calls = rand_calls(ck.rng, names, zero=ck.rng.random() < 0.08, must=mc_name(gs))
             if ck.rng.random() < 0.3 and "CNOT" in names and not any(g == "CX" for g, _, _ in calls):
                 calls.append(("CX", "depol", ("f", ck.rng.choice(RATES))))
         cases.append((gs, calls))
         exprs.append("rt %s %s %s" % (coq_bool(renamed), coq_calls(calls), coq_gates(gs)))
-    model = ck.coq_eval("placement", PREAMBLE, exprs, shard=120, jobs=3)
+    model = safe_eval(ck, "placement", exprs, shard=120, jobs=3)
     for (gs, calls), m in zip(cases, model):
         st, toks = translate_impl(gs, calls)
         replay = {"kind": "placement", "gates": gs, "calls": jsonable_calls(calls)}
         ck.case("placement", json.dumps(replay, default=str), nontrivial=noisy_two_qubit(gs, calls),
-                sample={"gates": [LC.coq_gate(s) for s in gs][:4], "calls": jsonable_calls(calls), "model": m[:300]},
+                sample={"gates": [LC.coq_gate(s) for s in gs][:4], "calls": jsonable_calls(calls), "model": (m or "")[:300]},
                 tags=classify(gs, calls) + ["result:" + (st if st == "ok" else toks)])
+        if m is None:                      # model unavailable: implementation-only oracle
+            if st == "ok" and not any(t[0] == "?" for t in toks):
+                placement_oracle(ck, gs, calls, toks, replay)
+            continue
         mt = model_tokens(m)
         if st == "err":
             # cirq raises ValueError for probabilities out of range and TypeError for non-numbers
@@ -533,6 +616,7 @@ def run_placement_stream(ck, n_cases, renamed):
         if mt is None:
             ck.violation("C19/correspondence/translate/accepted", "implementation builds a circuit, model says %s" % m,
                          dict(replay, model=m), found_input=False)
+            placement_oracle(ck, gs, calls, toks, replay)
             continue
         if any(t[0] == "?" for t in toks):
             ck.violation("C19/translate_c_to_cirq/unknown-operation", "unexpected operation in the cirq circuit: %s" % (
@@ -636,13 +720,13 @@ def run_density_stream(ck, n_cases, renamed):
         gs = rand_circuit(ck.rng, ck.tier, n=n, max_gates=5 if (ck.tier == "quick" and n == 3) else None)
         names = [s["name"] for s in gs]
         zero = ck.rng.random() < 0.12
-        calls = rand_calls(ck.rng, names, zero=zero, absent_p=0.05)
+        calls = rand_calls(ck.rng, names, zero=zero, absent_p=0.05, must=mc_name(gs))
         if ck.rng.random() < 0.25 and "CNOT" in names and not any(g == "CX" for g, _, _ in calls):
             calls.append(("CX", "depol", ("f", F(0) if zero else ck.rng.choice(RATES))))
         width = 1 + max(max(s["target"] + (s["control"] or [])) for s in gs)
         cases.append((gs, calls, width, zero))
         exprs.append("rd %s %s %s %s" % (coq_bool(renamed), coq_nat(width), coq_calls(calls), coq_gates(gs)))
-    model = ck.coq_eval("density", PREAMBLE, exprs, shard=max(4, (len(exprs) + 5) // 6), jobs=3, timeout=1500)
+    model = safe_eval(ck, "density", exprs, shard=max(4, (len(exprs) + 5) // 6), jobs=3, timeout=1500)
     noiseless = get_backend("cirq")
     for (gs, calls, n, zero), m in zip(cases, model):
         replay = {"kind": "density", "gates": gs, "calls": jsonable_calls(calls)}
@@ -655,25 +739,24 @@ def run_density_stream(ck, n_cases, renamed):
                          "raises %s" % res[1], replay, found_input=True)
             continue
         rho, (backend, circ) = res[1], res[2]
-        if m.startswith("Err") or m == "uninterpreted":
-            ck.violation("C19/correspondence/density/model-%s" % m, "model could not evaluate the case: %s" % m, replay,
-                         found_input=False)
-            continue
-        rm = parse_dens(m)
         errs = errors_of_calls(calls)
         r_spec = oracle_density(gs, errs, n)
         r_asis = oracle_density(gs, errs, n, key=asis_key)
-        d_model = float(np.max(np.abs(rho - rm)))
-        d_spec = float(np.max(np.abs(rho - r_spec)))
-        d_asis = float(np.max(np.abs(rho - r_asis)))
-        # model vs oracle (both sides of the check agree on what the chosen look-up rule means)
-        d_mo = float(np.max(np.abs(rm - (r_asis if renamed else r_spec))))
-        if d_mo > TOL:
-            ck.violation("C19/harness/model-vs-oracle", "Coq evaluation and numpy oracle differ by %.3g" % d_mo, replay,
+        rm, d_model = None, None
+        if m is not None and (m.startswith("Err") or m == "uninterpreted"):
+            ck.violation("C19/correspondence/density/model-%s" % m, "model could not evaluate the case: %s" % m, replay,
                          found_input=False)
-        if d_model > TOL:
-            ck.violation("C19/correspondence/density", "final density matrix differs from the model by %.3g" % d_model,
-                         dict(replay, diff=d_model), found_input=False)
+        elif m is not None:
+            rm = parse_dens(m)
+            d_model = float(np.max(np.abs(rho - rm)))
+            # model vs oracle (both sides of the check agree on what the chosen look-up rule means)
+            d_mo = float(np.max(np.abs(rm - (r_asis if renamed else r_spec))))
+            if d_mo > TOL:
+                ck.violation("C19/harness/model-vs-oracle", "Coq evaluation and numpy oracle differ by %.3g" % d_mo, replay,
+                             found_input=False)
+            if d_model > TOL:
+                ck.violation("C19/correspondence/density", "final density matrix differs from the model by %.3g" % d_model,
+                             dict(replay, diff=d_model), found_input=False)
         density_oracle(ck, gs, errs, rho, r_spec, r_asis, replay)
         # ---- trace and hermiticity of what the backend returns
         if abs(np.trace(rho) - 1) > 1e-9 or float(np.max(np.abs(rho - rho.conj().T))) > 1e-9:
@@ -693,14 +776,14 @@ def run_density_stream(ck, n_cases, renamed):
         # ---- expectation under noise = tr(rho H)
         terms = rand_operator(ck.rng, n)
         H = op_matrix([(w, float(c)) for w, c in terms], n)
-        want = float(np.real(np.trace(rm @ H)))
+        want = float(np.real(np.trace((rm if rm is not None else r_spec) @ H)))
         try:
             got = float(backend.expectation_value_from_prepared_state(make_qop(terms), n, be_to_le(rho, n)))
             if abs(got - float(np.real(np.trace(rho @ H)))) > 1e-8:
                 ck.violation("C19/cirq/expectation-from-density-matrix", "expectation_value_from_prepared_state = %.10g, "
                              "tr(rho H) = %.10g" % (got, float(np.real(np.trace(rho @ H)))),
                              dict(replay, op=[[list(map(list, w)), str(c)] for w, c in terms]), found_input=True)
-            if d_model <= TOL and abs(got - want) > 1e-7:
+            if d_model is not None and d_model <= TOL and abs(got - want) > 1e-7:
                 ck.violation("C19/correspondence/expectation", "noisy expectation %.10g vs model tr(rho H) %.10g" % (got, want),
                              dict(replay, op=[[list(map(list, w)), str(c)] for w, c in terms]), found_input=False)
         except Exception as e:
@@ -770,7 +853,7 @@ def run_backend_stream(ck):
             for has in (False, True):
                 cases.append((be, shots, has))
                 exprs.append("bi %s_noisy %s_sv %s %s" % (be, be, coq_bool(bool(shots)), coq_bool(has)))
-    model = ck.coq_eval("backend", PREAMBLE, exprs, jobs=1)
+    model = safe_eval(ck, "backend", exprs, jobs=1)
     for (be, shots, has), m in zip(cases, model):
         try:
             get_backend(be, n_shots=shots, noise_model=nm if has else None)
@@ -779,12 +862,15 @@ def run_backend_stream(ck):
             impl = "Err:" + type(e).__name__
         ck.case("backend", "%s/%s/%s" % (be, shots, has), nontrivial=has, sample={"backend": be, "n_shots": shots, "noise": has, "impl": impl},
                 tags=[be, impl])
-        if impl != m:
+        if m is not None and impl != m:
             ck.violation("C19/correspondence/backend-init/%s" % be, "get_backend(%s, n_shots=%s, noise=%s): impl %s, model %s" % (
                 be, shots, has, impl, m), {"kind": "backend", "backend": be, "n_shots": shots, "noise": has}, found_input=False)
         # property: a backend without noisy simulation must reject a noise model
         if has and be == "sympy" and impl == "Ok":
             ck.violation("C19/backend/unsupported-noise-accepted", "sympy backend accepted a noise model",
+                         {"kind": "backend", "backend": be, "n_shots": shots, "noise": has}, found_input=True)
+        if has and be == "cirq" and not shots and impl == "Ok":
+            ck.violation("C19/backend/noise-without-shots-accepted", "cirq backend accepted a noise model without shots",
                          {"kind": "backend", "backend": be, "n_shots": shots, "noise": has}, found_input=True)
     # empty noise model still means noisy simulation (object truthiness) and needs shots
     try:
@@ -811,18 +897,28 @@ def run(ck):
                       "the correspondence of final density matrices",
                       "angles on the pi/8 grid, rational error rates; floats are compared with tolerance 1e-9",
                       "sampling from the final density matrix (n_shots) is outside the theorem; checked statistically only"]
+    tables = "regenerated from /repo"
     try:
         t = noise_tables.extract(REPO)
-        ck.write_gen("NoiseTables", noise_tables.emit(t))
     except TranslateError as e:
         ck.violation("C19/translator/noise_tables", "translator no longer recognises the source: %s" % e,
                      {"kind": "translator", "error": str(e)}, found_input=False)
-        t = None
-    res = None
-    if t is not None:
+        t = dict(FALLBACK_T)
+        tables = "FALLBACK last-known-good constants (translator failed: %s)" % str(e)[:200]
+    except Exception as e:               # a crash of the translator is a translator failure too
+        ck.violation("C19/translator/noise_tables", "translator crashed: %r" % e, {"kind": "translator", "error": repr(e)},
+                     found_input=False)
+        t = dict(FALLBACK_T)
+        tables = "FALLBACK last-known-good constants (translator crashed)"
+    ck.notes["tables"] = tables
+    ck.write_gen("NoiseTables", noise_tables.emit(t))
+    try:
         res = ck.prove()
         if not res.ok:
             ck.proof_violation(res)
+    except Exception as e:
+        ck.violation("C19/proof/build", "the proof step could not run: %s" % str(e)[-400:], {"kind": "proof", "error": str(e)[-3000:]},
+                     found_input=False)
     try:
         import tangelo.linq  # noqa
         from tangelo.linq.noisy_simulation import NoiseModel  # noqa
@@ -833,26 +929,24 @@ def run(ck):
     fails, info = witness_fails()
     if fails is None:
         ck.violation("C19/witness", "witness circuit cannot be translated: %s" % info, {"kind": "witness"}, found_input=False)
-        renamed = True
+        renamed = bool(t["lookup_renamed"])
     else:
         renamed = bool(fails)
         if fails:
             ck.violation(SIG_RENAME, RENAME_DESC, {"kind": "placement-oracle", "gates": W_GATES, "calls": jsonable_calls(W_CALLS)},
                          found_input=True)
         ck.notes["lookup_rule"] = "as-is (name after CNOT->CX renaming)" if fails else "repaired (the gate's own name)"
-        if t is not None and bool(t["lookup_renamed"]) != renamed:
-            ck.violation("C19/translator/lookup-rule", "translator says lookup_renamed=%s but the witness behaves as %s" % (
-                t["lookup_renamed"], renamed), {"kind": "translator"}, found_input=False)
-    if t is None or (res is not None and res.failed and res.failed.startswith("generated file")):
-        # without compiled tables the model cannot be evaluated: run the oracle alone
-        oracle_only(ck)
-        return
+        if bool(t["lookup_renamed"]) != renamed:
+            ck.violation("C19/translator/lookup-rule", "tables (%s) say lookup_renamed=%s but the witness behaves as %s" % (
+                tables, t["lookup_renamed"], renamed), {"kind": "translator"}, found_input=False)
+    # every stream runs whatever happened before (translator / proof / model evaluation failures are reported and
+    # the implementation-only oracles inside each stream still run)
     q = ck.tier == "quick"
-    run_backend_stream(ck)
-    run_validation_stream(ck, 150 if q else 2500)
-    run_placement_stream(ck, 160 if q else 2500, renamed)
-    run_density_stream(ck, 150 if q else 900, renamed)
-    run_frequency_stream(ck, 8 if q else 60)
+    guard(ck, "backend", run_backend_stream)
+    guard(ck, "validation", run_validation_stream, 150 if q else 2500)
+    guard(ck, "placement", run_placement_stream, 160 if q else 2500, renamed)
+    guard(ck, "density", run_density_stream, 150 if q else 900, renamed)
+    guard(ck, "expectation-sampled", run_frequency_stream, 8 if q else 60)
     ck.notes["theorem_status"] = {
         "full": ["C19_noise_placement", "C19_noise_placement_total", "C19_placement_after_every_occurrence",
                  "C19_placement_keeps_gates", "C19_pauli_channel_kraus", "C19_pauli_conjugation_involutive",
@@ -861,45 +955,15 @@ def run(ck):
                  "C19_depolarize_rate_range_real", "C19_model_rate_is_source_expression", "C19_zero_noise_is_noiseless",
                  "C19_zero_rates_pure", "C19_fast_forms_correct", "C19_tabulated_execution_correct",
                  "C19_noise_spec_validation_iff",
-                 "C19_noise_spec_wellformed_explicit", "C19_noise_spec_effect", "C19_backend_rejection"],
-        "partial": ["C19_asis_placement_partial (as-is look-up = intended look-up when no CNOT has > 1 controls)"],
-        "refuted": ["C19_noise_on_multicontrolled_cnot_refuted", "C19_noise_on_cx_hits_cnot_refuted"]}
+                 "C19_noise_spec_wellformed_explicit", "C19_noise_spec_effect", "C19_backend_rejection",
+                 "C19_lookup_is_own_name (current source: the noise look-up key of every gate is its own name)"],
+        "about the look-up rule of the source before the fix commit (regression witnesses)":
+            ["C19_noise_on_multicontrolled_cnot_refuted", "C19_noise_on_cx_hits_cnot_refuted", "C19_asis_placement_partial"]}
     ck.notes["not_covered_by_theorem"] = [
         "sampling from the final density matrix; get_expectation_value's frequency route (statistical support only)",
         "cirq's channel and simulator implementations (numerical correspondence only)",
         "noisy expectation = tr(rho H): numerical check against expectation_value_from_prepared_state only",
         "rates are ring elements: positivity / complete positivity is not stated; only the real-rate range lemma"]
-
-
-def oracle_only(ck):
-    """the model cannot be evaluated (translator or generated file broken): search the real code for a failing
-    input of the property with the numpy reference alone"""
-    ck.stream("oracle-only", "model unavailable: numpy reference vs implementation (operation list and final state)")
-    for i in range(150 if ck.tier == "quick" else 1500):
-        gs = rand_circuit(ck.rng, ck.tier)
-        names = [s["name"] for s in gs]
-        if ck.rng.random() < 0.15:
-            calls = rand_calls(ck.rng, names)[:1] + rand_bad_rate_calls(ck.rng, names)
-        else:
-            calls = rand_calls(ck.rng, names, zero=ck.rng.random() < 0.08)
-        n = 1 + max(max(s["target"] + (s["control"] or [])) for s in gs)
-        replay = {"kind": "density", "gates": gs, "calls": jsonable_calls(calls)}
-        ck.case("oracle-only", json.dumps(replay, default=str), nontrivial=noisy_two_qubit(gs, calls), tags=classify(gs, calls))
-        st, toks = translate_impl(gs, calls)
-        if st != "ok":
-            continue
-        placement_oracle(ck, gs, calls, toks, dict(replay, kind="placement"))
-        res = density_impl(gs, calls)
-        if res[0] == "ok":
-            errs = errors_of_calls(calls)
-            density_oracle(ck, gs, errs, res[1], oracle_density(gs, errs, n), oracle_density(gs, errs, n, key=asis_key), replay)
-    for calls in ([("X", "pauli", ("l", [F(1, 8), F(1, 8)]))], [("X", "pauli", ("l", [F(1, 8)] * 4))],
-                  [("X", "depol", ("o", "int"))], [("X", "foo", ("f", F(1, 8)))],
-                  [("X", "depol", ("f", F(1, 8))), ("X", "depol", ("f", F(1, 4)))]):
-        _, flags, _ = build_nm(calls)
-        if flags[-1]:
-            ck.violation("C19/add_quantum_error/malformed-accepted", "malformed specification accepted: %s" % jsonable_calls(calls),
-                         {"kind": "validation", "calls": jsonable_calls(calls)}, found_input=True)
 
 
 def replay(data):
